@@ -14,13 +14,13 @@ package main
 // are written.
 
 import (
-	"path/filepath"
-	"os"
 	"fmt"
 	"go/token"
 	"go/types"
 	"math"
 	"math/big"
+	"os"
+	"path/filepath"
 	"regexp"
 	"sort"
 	"strconv"
@@ -145,7 +145,7 @@ func newC20m(c *Ctx) (*c20m, *types.Func) {
 	m := &c20m{c: c, h: h, it: h.it, defined: map[string]string{}, addDef: c.P.Func("proj", "addDef")}
 	m.err = oIface{opaque: &oOpaque{name: "error", isError: true}}
 	m.it.symbolic = true
-	m.it.maxDepth = 16
+	m.it.maxDepth = 48
 	m.it.maxLoop = 4096
 	// reference valuation: chooses the branch where a comparison on parameters cannot be decided
 	// symbolically (is the ellipsoid a sphere? is rf zero?): an ordinary ellipsoid and mid-latitude
@@ -618,6 +618,7 @@ func c20model(c *Ctx) bool {
 	}
 
 	c20names(c, m, run, pos)
+	c20order(c, m, parse, pos)
 	c20equal(c, m, run, pos)
 
 	// ---- obligations
@@ -777,7 +778,7 @@ func diffSR(a, b *oStruct) string {
 				return k
 			}
 			for i := 0; i < xv.length(); i++ {
-				if eq, ok := oEqual(xv.at(i), yv.at(i)); ok && !eq {
+				if eq, ok := sameTerm(xv.at(i), yv.at(i)); ok && !eq {
 					if p, ok := symOf(xv.at(i)); ok && polyHasNaN(p) {
 						continue
 					}
@@ -801,12 +802,27 @@ func diffSR(a, b *oStruct) string {
 				}
 				return k
 			}
-			if eq, ok := oEqual(x, y); ok && !eq {
+			if eq, ok := sameTerm(x, y); ok && !eq {
 				return k
 			}
 		}
 	}
 	return ""
+}
+
+// sameTerm: two dumped values are the same term — symbolic values by their normal form (whether
+// p12 = p13 holds for some parameter values is not the question), anything else by oEqual.
+func sameTerm(x, y oval) (bool, bool) {
+	_, sx := x.(oSym)
+	_, sy := y.(oSym)
+	if sx || sy {
+		p, ok1 := symOf(x)
+		q, ok2 := symOf(y)
+		if ok1 && ok2 {
+			return p.canon() == q.canon(), true
+		}
+	}
+	return oEqual(x, y)
 }
 
 // c20equal: SR.Equal evaluated on parsed references (C20.R5): equal to itself and to a second
